@@ -121,6 +121,15 @@ CLAIMS = {
          "create, from_iter), reads the counters before any subscription (laziness) and after 2-3 successive or nested subscriptions of clones, "
          "and compares every subscription's trace with the model. PARTIAL: futures are not exercised; laziness is decided by the counters "
          "(correspondence), not by a theorem.", "DESIGN.md section 5 C13"),
+ "C18": ("Theorems: C18_same_notifications / C18_same_outcome_when_finished (a macro body seen as a sequence of cell acquisitions, releases and "
+         "downstream calls delivers the same notifications with RefCell cells and with Mutex cells in one thread; both finish or both fail - the "
+         "local form by a panic, the thread-safe one by never returning), C18_both_forms_share_one_body and C18_written_twice_is_reviewed (tables "
+         "regenerated on every run from the macro instantiations of /repo/src: each two-form operator, the subjects, subscribers, boxed observables "
+         "and composite subscriptions are two instantiations of one macro body; the thread-safe types written separately are the three reviewed "
+         "ones). Each run executes the case sets of the other checks twice on the crate - local types and operators, then all of them replaced by "
+         "their thread-safe counterparts - and compares the two observations item by item. The theorem is about cell discipline only: that the two "
+         "instantiations compute the same function otherwise rests on their being one macro body (checked) and on the direct comparison.",
+         "DESIGN.md section 5 C18"),
  "C16": ("Theorems: C16_source_agrees_single / _double and C16_no_constant_answers (the model's back channel equals a table regenerated on "
          "every run from every `fn is_finished` body of /repo/src; no observer but the final subscriber answers a constant), "
          "C16_every_observer_forwards, C16_cut_reaches_producer (an early end anywhere in any chain of single-input operators, or behind either "
